@@ -77,6 +77,17 @@ pub fn asks_for_huge_table(text: &str) -> bool {
 
 /// The API sequences a user can drive: parse + add_module + build + write, and pyxis::build on disk.
 pub fn run_case_in_process(c: &Case) -> Value {
+    if c.what == "api" && c.files.len() == 1 && c.files[0].0 == "__api__" {
+        return match serde_json::from_str::<ApiCase>(&c.files[0].1) {
+            Ok(a) => {
+                if a.ops.iter().any(|o| matches!(o, ApiOp::AddModule { text, .. } | ApiOp::AddFile { text, .. } if asks_for_huge_table(text))) {
+                    return json!({"status": "skipped-huge-table"});
+                }
+                run_api_in_process(&a)
+            }
+            Err(_) => json!({"status": "bad-input"}),
+        };
+    }
     if c.files.iter().any(|(_, t)| asks_for_huge_table(t)) {
         return json!({"status": "skipped-huge-table"});
     }
@@ -560,6 +571,155 @@ impl Prop for ParsePosition {
     }
 }
 
+// ------------------------------------------------------------ API call sequences
+
+#[derive(Clone, Serialize, Deserialize)]
+pub enum ApiOp {
+    /// add_module(parse_str(text), path)
+    AddModule { path: Vec<String>, text: String },
+    /// add_file(base, file): `base_kind` 0 the directory holding the file, 1 a sibling directory, 2 "", 3 "/";
+    /// `exists`: whether the file is written before the call
+    AddFile { rel: String, text: String, base_kind: u8, exists: bool },
+}
+
+#[derive(Clone, Serialize, Deserialize)]
+pub struct ApiCase {
+    pub w: u64,
+    pub ops: Vec<ApiOp>,
+}
+
+pub fn run_api_in_process(c: &ApiCase) -> Value {
+    let sc = Scratch::new("api");
+    let r = catch(|| -> (usize, usize, bool) {
+        let mut st = pyxis::semantic::SemanticState::new(c.w as usize);
+        let (mut oks, mut errs) = (0, 0);
+        for op in &c.ops {
+            let r = match op {
+                ApiOp::AddModule { path, text } => match pyxis::parser::parse_str(text) {
+                    Ok(m) => st.add_module(&m, &item_path(path)).map_err(|e| e.to_string()),
+                    Err(e) => Err(e.to_string()),
+                },
+                ApiOp::AddFile { rel, text, base_kind, exists } => {
+                    let file = sc.path(&format!("in/{rel}"));
+                    if *exists {
+                        sc.write(&format!("in/{rel}"), text);
+                    }
+                    let base = match base_kind {
+                        0 => sc.path("in"),
+                        1 => sc.path("elsewhere"),
+                        2 => std::path::PathBuf::new(),
+                        _ => std::path::PathBuf::from("/"),
+                    };
+                    st.add_file(&base, &file).map_err(|e| e.to_string())
+                }
+            };
+            match r {
+                Ok(()) => oks += 1,
+                Err(_) => errs += 1,
+            }
+        }
+        let built = st.build();
+        let ok = built.is_ok();
+        if let Ok(rs) = built {
+            let out = sc.path("out");
+            let _ = std::fs::create_dir_all(&out);
+            let mut keys: Vec<_> = rs.modules().keys().cloned().collect();
+            keys.sort();
+            for k in keys {
+                let _ = pyxis::backends::rust::write_module(&out, &k, &rs, &rs.modules()[&k]);
+            }
+        }
+        (oks, errs, ok)
+    });
+    match r {
+        Err(p) => json!({"status": "panic", "stage": "api", "msg": p}),
+        Ok((oks, errs, ok)) => json!({"status": if ok { "ok" } else { "err" }, "calls_ok": oks, "calls_err": errs}),
+    }
+}
+
+pub struct ApiSequences;
+impl Prop for ApiSequences {
+    type Case = ApiCase;
+    fn name(&self) -> String {
+        "C12/api-sequences".into()
+    }
+    fn rule(&self) -> String {
+        "sequences of 1-6 public API calls on one SemanticState followed by build() and write_module(): add_module with generated module texts under ordinary, empty, repeated, nested and prefix-of-each-other module paths; add_file with existing / missing files and a base path that is the input directory, a sibling directory, the empty path or `/` (so that the file is not below the base); both pointer widths. Each sequence runs in a worker process (same limits as C12/directed). Oracle: every call returns Ok or Err, nothing panics. Non-trivial: >=2 calls of which >=1 succeeded".into()
+    }
+    fn gen(&self, t: &mut Tape) -> ApiCase {
+        let w = if t.chance(1, 2) { 8 } else { 4 };
+        let n = 1 + t.below(6);
+        let mut ops = vec![];
+        let texts = |t: &mut Tape| -> String {
+            if t.chance(1, 3) {
+                print_gmod(&gen_gmod(t), Style::canonical())
+            } else {
+                let mut cfg = GenCfg::rich(w);
+                cfg.max_mods = 1;
+                cfg.max_items = 1 + t.below(4);
+                cfg.max_fields = 3;
+                cfg.docs = false;
+                let (prog, _, _) = gen_prog(t, cfg);
+                print_mod(&prog.mods[0])
+            }
+        };
+        let seg_pool = ["m0", "m1", "a", "b", "T1", "u32", "é", ""];
+        for _ in 0..n {
+            if t.chance(2, 3) {
+                let depth = t.below(4) as usize;
+                let path: Vec<String> = (0..depth).map(|_| t.pick(&seg_pool).to_string()).collect();
+                ops.push(ApiOp::AddModule { path, text: texts(t) });
+            } else {
+                let rel = t.pick(&["m0.pyxis", "sub/m1.pyxis", "a/b/c.pyxis", "noext", "dots.in.name.pyxis", "m0.pyxis"]).to_string();
+                ops.push(ApiOp::AddFile {
+                    rel,
+                    text: texts(t),
+                    base_kind: t.below(4) as u8,
+                    exists: t.chance(4, 5),
+                });
+            }
+        }
+        ApiCase { w, ops }
+    }
+    fn judge(&self, c: &ApiCase) -> Outcome {
+        // run in a worker through the generic case channel: encode as a Case with a marker file
+        let payload = serde_json::to_string(c).unwrap();
+        let carrier = Case {
+            files: vec![("__api__".into(), payload)],
+            w: c.w,
+            what: "api".into(),
+        };
+        let mut v = run_in_worker(&carrier);
+        let bad = |v: &Value| v["status"] == "panic" || v["status"] == "died";
+        if bad(&v) {
+            let v2 = run_in_worker(&carrier);
+            if !bad(&v2) {
+                return Outcome::discard("did-not-reproduce-in-second-worker");
+            }
+            v = v2;
+        }
+        match v["status"].as_str().unwrap_or("") {
+            "panic" => {
+                let msg = v["msg"].as_str().unwrap_or("").to_string();
+                Outcome::fail(&format!("panic:{}", panic_signature(&msg)), msg)
+            }
+            "died" => Outcome::fail(&format!("died:{}", v["why"].as_str().unwrap_or("")), format!("{v}")),
+            "skipped-huge-table" => Outcome::discard("asks for a vftable of more than 65536 slots (cost proportional to the request is allowed)"),
+            "ok" | "err" => {
+                let oks = v["calls_ok"].as_u64().unwrap_or(0);
+                Outcome::pass(c.ops.len() >= 2 && oks >= 1).class(&format!("build:{}", v["status"].as_str().unwrap_or("")))
+            }
+            _ => Outcome::discard("machinery"),
+        }
+    }
+    fn show(&self, c: &ApiCase) -> Value {
+        json!({"width": c.w, "ops": c.ops.iter().map(|o| match o {
+            ApiOp::AddModule { path, text } => json!({"add_module": path.join("::"), "text": text}),
+            ApiOp::AddFile { rel, base_kind, exists, text } => json!({"add_file": rel, "base_kind": base_kind, "exists": exists, "text": text}),
+        }).collect::<Vec<_>>()})
+    }
+}
+
 // ------------------------------------------------------------ libFuzzer campaign (thorough tier)
 
 /// Runs tools/fuzz_campaign.sh and hands every crashing input it leaves behind to `judge`.
@@ -623,6 +783,7 @@ pub fn props() -> Vec<Box<dyn DynProp>> {
     vec![
         Box::new(Directed),
         Box::new(ParsePosition),
+        Box::new(ApiSequences),
         Box::new(FuzzArtifacts {
             cases: vec![],
             summary: String::new(),
@@ -633,6 +794,7 @@ pub fn props() -> Vec<Box<dyn DynProp>> {
 pub fn run(ctx: &mut Ctx) {
     let q = ctx.quick();
     ctx.run(&ParsePosition, &Params::new(if q { 3_000 } else { 100_000 }, 20, 800));
+    ctx.run(&ApiSequences, &Params::new(if q { 3_000 } else { 150_000 }, 60, 1500).shrink(200));
     ctx.run(&Directed, &Params::new(if q { 12_000 } else { 600_000 }, 60, 1500).shrink(200));
     if !q && ctx.violations.is_empty() {
         let secs: u64 = std::env::var("PV_FUZZ_SECS").ok().and_then(|s| s.parse().ok()).unwrap_or(900);
